@@ -29,6 +29,13 @@ Theorem C10_ravel_unravel : forall (L : shape) (m : list nat),
 Proof. exact ShapeProofs.ravel_unravel. Qed.
 Print Assumptions C10_ravel_unravel.
 
+(* two valid loop positions never share a flat position: no two samples collide in the batch buffers *)
+Theorem C10_ravel_injective : forall (L : shape) (m1 m2 : list nat),
+  Forall2 (fun i d => i < d) m1 L -> Forall2 (fun i d => i < d) m2 L ->
+  ravel L m1 = ravel L m2 -> m1 = m2.
+Proof. exact ShapeProofs.ravel_injective. Qed.
+Print Assumptions C10_ravel_injective.
+
 (* the row handed to the evaluator at loop position m is the sample at the broadcast position of m *)
 Theorem C10_input_row : forall (A : Type) (L lead trail : shape) (data : list A) (m : list nat),
   length lead = length L -> broadcastable_to L lead = true -> length data = nprod (lead ++ trail) ->
